@@ -386,6 +386,32 @@ pub fn plan(tier: Tier) -> Plan {
             }
         }
     }
+    // mixed mid-size family: operations over overlapping halves of members
+    for part in 0..16usize {
+        p.units.push(unit("mixed-mid-size-family-(finite-family)", format!("mixed part {}", part), move |st, rep| {
+            for (i, (_, kvs)) in mixed_family(if thorough { 420 } else { 84 }).into_iter().enumerate() {
+                if i % 16 != part || kvs.len() > 1300 { continue; }
+                // streams: all keys; even-indexed; every third with other values; a tail
+                let a = make_src(kvs.clone()).unwrap();
+                let b = make_src(kvs.iter().step_by(2).cloned().collect()).unwrap();
+                let c = make_src(kvs.iter().skip(1).step_by(3).map(|(k, v)| (k.clone(), v.wrapping_add(1) >> 1)).collect()).unwrap();
+                let d = make_src(kvs[kvs.len() / 2..].to_vec()).unwrap();
+                for (srcs, kinds) in [
+                    (vec![&a, &b], vec![Kind::Whole, Kind::RangeGe]),
+                    (vec![&b, &c, &d], vec![Kind::SearchAlways, Kind::UserVec, Kind::Whole]),
+                    (vec![&d, &c, &b, &a], vec![Kind::Whole, Kind::Whole, Kind::RangeGe, Kind::UserVec]),
+                    (vec![&c, &c], vec![Kind::Whole, Kind::UserVec]),
+                ] {
+                    st.states += 1;
+                    st.nontrivial += 1;
+                    match run_tuple(&srcs, &kinds, true) {
+                        Ok(n) => { st.evals += n; st.transitions += n; st.count("mixed_operation_streams", n); }
+                        Err(msg) => rep.violation(format!("mixed member {} kinds {:?}", i, kinds), msg, json!({"streams": srcs.iter().map(|s| kvs_json(&s.kvs)).collect::<Vec<_>>(), "kinds": kinds.iter().map(|k| format!("{:?}", k)).collect::<Vec<_>>()})),
+                    }
+                }
+            }
+        }));
+    }
     // predicates: all ordered pairs of subsets of U4 x 2 value modes
     {
         let uni = u4.clone();
